@@ -174,7 +174,8 @@ def specCodeOK (c : B) : Bool :=
    (((c.drop 1).all fun d => '0' ≤ d && d ≤ '9') || c.drop 1 = ['X', 'X']))
 
 def wfResp (v : Version) (r : Resp Schema) : Bool :=
-  specCodeOK r.code && !r.description.isEmpty && (match r.schema with | some x => wfSchema v x | none => true)
+  specCodeOK r.code && !r.description.isEmpty && (match r.schema with | some x => wfSchema v x | none => true) &&
+  !(r.hasExample && !r.exampleNames.isEmpty)     -- Media Type Object: `example` and `examples` are mutually exclusive
 
 def nodupPairs : List (B × B) → Bool
   | [] => true
